@@ -275,6 +275,8 @@ def check(ctx):
         with ctx.guard(c):
             judge(ctx, c, r, m)
     chain_cases(ctx)
+    from harness.props import multistream
+    multistream.run(ctx, ctx.scale(40, 400), {'outputs'}, 'multi-C01')
 
 
 def replay(ctx, data):
